@@ -12,14 +12,14 @@ open PdfVerif PdfVerif.CPY PdfVerif.C11cpy PdfVerif.C11cpyb
 /-- reachability that does not look behind redirected references -/
 inductive ReachA (G : Graph) (Rd : List Ref) (r : Ref) : Ref → Prop where
   | root : ReachA G Rd r r
-  | step {a b : Ref} : ReachA G Rd r a → a ∉ Rd → b ∈ specRefs G a → ReachA G Rd r b
+  | step {a b : Ref} : ReachA G Rd r a → ¬ Exempt G Rd a → b ∈ specRefs G a → ReachA G Rd r b
 
 /-- In a consistent state the translated part of the source is closed: everything reachable
 from a translated reference is translated, written, and the image of its source. -/
 theorem consistent_reach {G : Graph} {Rd : List Ref} {s : St} (hc : Consistent G Rd s) {r t : Ref}
     (hr : assoc r s.trans = some t) :
     ∀ b, ReachA G Rd r b → ∃ t', assoc b s.trans = some t' ∧
-      (b ∉ Rd → ∃ v, assoc t' s.puts = some v ∧ Image s.trans G b v) := by
+      (¬ Exempt G Rd b → ∃ v, assoc t' s.puts = some v ∧ Image s.trans G b v) := by
   intro b hb
   induction hb with
   | root => exact ⟨t, hr, fun hn => hc.2.2 r t (assoc_some_mem _ _ _ hr) hn⟩
@@ -92,10 +92,13 @@ theorem redirect_consistent {G : Graph} {Rd : List Ref} {s : St} (hc : Consisten
   refine ⟨c1, c2, ?_⟩
   intro src t hm hr
   rw [htr] at hm ⊢
-  simp only [List.mem_cons, not_or] at hr
+  have hr2 : ¬ Exempt G Rd src := by
+    rintro (h | ⟨x, hx, hl⟩)
+    · exact hr (Or.inl (List.mem_cons_of_mem _ h))
+    · exact hr (Or.inr ⟨x, List.mem_cons_of_mem _ hx, hl⟩)
   rcases List.mem_cons.mp hm with e | e
-  · cases e; exact absurd rfl hr.1
-  · obtain ⟨w, hw, him⟩ := c3 src t e hr.2
+  · cases e; exact absurd (Or.inl List.mem_cons_self) hr
+  · obtain ⟨w, hw, him⟩ := c3 src t e hr2
     exact ⟨w, hw, Image_stable hext G src w him⟩
 
 /-- after `Redirect(r, n)`, `CopyReference(r)` answers `n` and writes nothing -/
@@ -109,14 +112,20 @@ def opRedirect : Op → List Ref
   | .redirectTo r _ => [r]
   | _ => []
 
-theorem stepOp_consistent {G : Graph} {fuel : Nat} {Rd : List Ref} {s s' : St} {roots : List Ref}
+theorem exempt_append {G : Graph} {Rd : List Ref} (l : List Ref) {src : Ref}
+    (h : ¬ Exempt G (l ++ Rd) src) : ¬ Exempt G Rd src := by
+  rintro (h' | ⟨x, hx, hl⟩)
+  · exact h (Or.inl (List.mem_append_right _ h'))
+  · exact h (Or.inr ⟨x, List.mem_append_right _ hx, hl⟩)
+
+theorem stepOp_consistent {G : Graph} (hL : LinkInv G) {fuel : Nat} {Rd : List Ref} {s s' : St} {roots : List Ref}
     {op : Op} {t : Ref} (hc : Consistent G Rd s)
     (hfresh : ∀ r ∈ opRedirect op, assoc r s.trans = none)
     (h : stepOp fuel G s roots op = .ok (t, s')) : Consistent G (opRedirect op ++ Rd) s' := by
   cases op with
   | copyRef r =>
     simp only [stepOp] at h
-    exact (copyRef_effect h).1.consistent hc
+    exact copyRef_consistent hL hc h
   | copyGet r =>
     simp only [stepOp] at h
     split at h
@@ -125,13 +134,15 @@ theorem stepOp_consistent {G : Graph} {fuel : Nat} {Rd : List Ref} {s s' : St} {
       split at h
       · cases h
       · next v' s1 hc1 =>
-        exact allocPut_consistent (((copy_main G fuel).2.2.2.2.2.1 _ _ _ _ hc1).1.consistent hc) h
+        exact allocPut_consistent (Eff.consistent' hL hc ((copy_main G fuel).2.2.2.2.2.1 _ _ _ _ hc1).1
+          ((alias_main G hL fuel).2.2.2.2.2.1 _ _ _ _ hc1)) h
   | copyObj o =>
     simp only [stepOp] at h
     split at h
     · cases h
     · next o' s1 hc1 =>
-      exact allocPut_consistent (((copy_main G fuel).1 _ _ _ _ hc1).1.consistent hc) h
+      exact allocPut_consistent (Eff.consistent' hL hc ((copy_main G fuel).1 _ _ _ _ hc1).1
+        ((alias_main G hL fuel).1 _ _ _ _ hc1)) h
   | redirectNew r m =>
     simp only [stepOp] at h
     split at h
@@ -166,7 +177,7 @@ def redirectsOf : List Op → List Ref
 
 /-- **run_consistent.**  Any program of `Copy`, `CopyReference` and (fresh) `Redirect` calls on a
 new `Copier` that runs without error leaves a consistent state. -/
-theorem run_consistent {G : Graph} {fuel : Nat} :
+theorem run_consistent {G : Graph} (hL : LinkInv G) {fuel : Nat} :
     ∀ (ops : List Op) (Rd : List Ref) (s : St) (roots roots' : List Ref) (s' : St),
       Consistent G Rd s → RedirectsFresh fuel G s roots ops →
       runOps fuel G s roots ops = .ok (roots', s') → Consistent G (redirectsOf ops ++ Rd) s'
@@ -179,51 +190,9 @@ theorem run_consistent {G : Graph} {fuel : Nat} :
     · cases h
     · next t s1 hs =>
       rw [hs] at hf
-      have hc1 := stepOp_consistent hc hf.1 hs
-      have := run_consistent ops _ s1 _ roots' s' hc1 hf.2 h
+      have hc1 := stepOp_consistent hL hc hf.1 hs
+      have := run_consistent hL ops _ s1 _ roots' s' hc1 hf.2 h
       simpa [redirectsOf, List.append_assoc] using this
-
-
-/-! ### distinct source objects stay distinct -/
-
-/-- the translation is injective and its targets are allocated numbers -/
-def TransOK (s : St) : Prop :=
-  (s.trans.map Prod.snd).Nodup ∧ ∀ t ∈ s.trans.map Prod.snd, t.1 < s.next
-
-theorem init_transOK (n0 : Nat) : TransOK (St.init n0) := by simp [TransOK, St.init]
-
-/-- **trans_injective.**  Every call keeps `trans` injective: two different source references
-never share a target object (unless the caller says so with `Redirect`). -/
-theorem eff_transOK {G : Graph} {s s' : St} (h : Eff G s s') (ht : TransOK s) : TransOK s' := by
-  obtain ⟨t1, t2⟩ := ht
-  obtain ⟨N, P, a, b, c, d, e, f, g, i⟩ := h
-  have hmem : ∀ t ∈ N.map Prod.snd, s.next ≤ t.1 ∧ t.1 < s'.next := by
-    intro t htm
-    rw [f, List.mem_reverse] at htm
-    obtain ⟨m, hm, rfl⟩ := List.mem_map.mp htm
-    have := List.mem_range'_1.mp hm
-    simp only [refOf]; omega
-  have hnd : (N.map Prod.snd).Nodup := by
-    rw [f]; exact ((List.reverse_perm _).nodup_iff).mpr (range_refs_nodup _ _)
-  refine ⟨?_, ?_⟩
-  · rw [a, List.map_append, List.nodup_append]
-    refine ⟨hnd, t1, ?_⟩
-    intro x hx y hy hxy
-    subst hxy
-    have := hmem x hx
-    have := t2 x hy
-    omega
-  · intro t htm
-    rw [a, List.map_append, List.mem_append] at htm
-    rcases htm with h1 | h1
-    · exact (hmem t h1).2
-    · have := t2 t h1; omega
-
-theorem trans_injective {G : Graph} {f : Nat} {s s' : St} {r t : Ref} (ht : TransOK s)
-    (h : copyRef f G s r = .ok (t, s')) {a b ta : Ref}
-    (ha : assoc a s'.trans = some ta) (hb : assoc b s'.trans = some ta) : a = b := by
-  have hok := eff_transOK (copyRef_effect h).1 ht
-  exact snd_nodup_inj s'.trans hok.1 (assoc_some_mem _ _ _ ha) (assoc_some_mem _ _ _ hb)
 
 
 /-! ### which streams are decrypted: the object's encryption state, never its /Type -/
@@ -254,10 +223,6 @@ theorem recipe_ignores_type (G : Graph) (d : KV) (enc : Bool) (v : Obj) :
 
 
 /-! ### `Resolve` follows chains of references to their end (independent characterisation) -/
-
-def IsRef : Val → Prop
-  | .obj (.ref _ _) => True
-  | _ => False
 
 /-- `Follows G r k v`: starting at `r`, after `k` further hops through objects that are
     themselves references, the chain ends at the non-reference value `v`. -/
@@ -371,6 +336,284 @@ theorem image_of_chain {tr : List (Ref × Ref)} {G : Graph} {b : Ref} {k : Nat} 
   exact ⟨sp, h2, h3⟩
 
 
+/-! ### aliases share the copy -/
+
+/-- a property of the copier state which the three state changes of `CopyReference` preserve is
+    preserved by every call -/
+theorem prim_main (G : Graph) (Q : St → Prop)
+    (hK : ∀ s r t chain, Q s → assoc r s.trans = none → walkFrom G s.trans r = .known t chain →
+      Q { s with trans := enter chain t s.trans })
+    (hA : ∀ s r v chain, Q s → assoc r s.trans = none → walkFrom G s.trans r = .ends v chain →
+      Q { trans := enter chain (refOf s.next) s.trans, next := s.next + 1, puts := s.puts })
+    (hP : ∀ s n v s', Q s → put s n v = .ok s' → Q s') :
+    ∀ f : Nat,
+      (∀ s o o' s', copyObj f G s o = .ok (o', s') → Q s → Q s') ∧
+      (∀ s xs ys s', copyList f G s xs = .ok (ys, s') → Q s → Q s') ∧
+      (∀ s L L' s', copyKV f G s L = .ok (L', s') → Q s → Q s') ∧
+      (∀ s src res key res' s', inlineKey f G s src res key = .ok (res', s') → Q s → Q s') ∧
+      (∀ s src res s', copyStreamDict f G s src = .ok (res, s') → Q s → Q s') ∧
+      (∀ s v v' s', copyVal f G s v = .ok (v', s') → Q s → Q s') ∧
+      (∀ s r t s', copyRef f G s r = .ok (t, s') → Q s → Q s') := by
+  intro f
+  induction f with
+  | zero =>
+    refine ⟨?_, ?_, ?_, ?_, ?_, ?_, ?_⟩
+    · intro s o o' s' h; simp [copyObj] at h
+    · intro s o o' s' h; simp [copyList] at h
+    · intro s o o' s' h; simp [copyKV] at h
+    · intro s a b c d e h; simp [inlineKey] at h
+    · intro s o o' s' h; simp [copyStreamDict] at h
+    · intro s o o' s' h; simp [copyVal] at h
+    · intro s o o' s' h; simp [copyRef] at h
+  | succ f ih =>
+    obtain ⟨hO, hLi, hKV, hI, hS, hV, hR⟩ := ih
+    refine ⟨?_, ?_, ?_, ?_, ?_, ?_, ?_⟩
+    · intro s o o' s' h hq
+      cases o with
+      | dict kv =>
+        simp only [copyObj] at h
+        split at h
+        · cases h
+        · next kv' s1 hk => cases h; exact hKV _ _ _ _ hk hq
+      | arr xs =>
+        simp only [copyObj] at h
+        split at h
+        · cases h
+        · next ys s1 hk => cases h; exact hLi _ _ _ _ hk hq
+      | ref n g =>
+        simp only [copyObj] at h
+        split at h
+        · cases h
+        · next t s1 hk => cases h; exact hR _ _ _ _ hk hq
+      | _ => simp only [copyObj] at h; cases h; exact hq
+    · intro s xs ys s' h hq
+      cases xs with
+      | nil => simp only [copyList] at h; cases h; exact hq
+      | cons x xs =>
+        simp only [copyList] at h
+        split at h
+        · cases h
+        · next y s1 hy =>
+          split at h
+          · cases h
+          · next ys' s2 hys => cases h; exact hLi _ _ _ _ hys (hO _ _ _ _ hy hq)
+    · intro s L L' s' h hq
+      cases L with
+      | nil => simp only [copyKV] at h; cases h; exact hq
+      | cons p rest =>
+        obtain ⟨k, v⟩ := p
+        by_cases hv : v = .null
+        · subst hv
+          simp only [copyKV] at h
+          split at h
+          · cases h
+          · next rest' s1 hr => cases h; exact hKV _ _ _ _ hr hq
+        · rw [copyKV_cons_nonnull G f s k v rest hv] at h
+          cases h1 : copyObj f G s v with
+          | error e => rw [h1] at h; simp [kvCont] at h
+          | ok p =>
+            obtain ⟨y, s1⟩ := p
+            rw [h1] at h
+            simp only [kvCont] at h
+            split at h
+            · cases h
+            · next rest' s2 hr => cases h; exact hKV _ _ _ _ hr (hO _ _ _ _ h1 hq)
+    · intro s src res key res' s' h hq
+      simp only [inlineKey] at h
+      split at h
+      · cases h; exact hq
+      · split at h
+        · cases h
+        · cases h
+        · split at h
+          · cases h
+          · next repl s1 hc => cases h; exact hO _ _ _ _ hc hq
+    · intro s src res s' h hq
+      simp only [copyStreamDict] at h
+      split at h
+      · cases h
+      · next res1 s1 h1 =>
+        split at h
+        · cases h
+        · next res2 s2 h2 => exact hI _ _ _ _ _ _ h (hI _ _ _ _ _ _ h2 (hKV _ _ _ _ h1 hq))
+    · intro s v v' s' h hq
+      cases v with
+      | obj o =>
+        simp only [copyVal] at h
+        split at h
+        · cases h
+        · next o' s1 ho => cases h; exact hO _ _ _ _ ho hq
+      | stream dict data enc =>
+        simp only [copyVal] at h
+        split at h
+        · cases h
+        · next dict' s1 hd =>
+          have := hS _ _ _ _ hd hq
+          split at h
+          · cases h
+          · cases h
+          · cases h; exact this
+    · intro s r t s' h hq
+      simp only [copyRef] at h
+      split at h
+      · cases h; exact hq
+      · next hnone =>
+        split at h
+        · cases h
+        · cases h
+        · next t' chain hwk =>
+          have := hK s r t' chain hq hnone hwk
+          cases h; exact this
+        · next v chain hwk =>
+          split at h
+          · cases h
+          · next n s1 ha =>
+            obtain ⟨hn, hs1⟩ := alloc_ok ha
+            subst hn; subst hs1
+            simp only at h
+            split at h
+            · cases h
+            · next v' s3 hc =>
+              split at h
+              · cases h
+              · next s4 hp =>
+                cases h
+                exact hP _ _ _ _ (hV _ _ _ _ hc (hA s r v chain hq hnone hwk)) hp
+
+
+/-- the chain of references from `k` ends properly within the depth `Resolve` admits -/
+def ProperEnd (G : Graph) (k : Ref) : Prop := ∃ n v, Follows G k n v ∧ n < Gen.cpy_MaxExtractDepth
+
+/-- `e` is the object the reference `a` stands for: the end of its chain of references -/
+inductive EndsAt (G : Graph) : Ref → Ref → Prop where
+  | here {e : Ref} {v : Val} : CPY.get G e true = .ok v → ¬ IsRef v → EndsAt G e e
+  | step {a c e : Ref} : CPY.get G a true = .ok (.obj (.ref c.1 c.2)) → EndsAt G c e → EndsAt G a e
+
+/-- `trans` treats a chain of references as one object: whenever a translated reference is an
+    alias object (its value is a reference) whose chain ends properly, the next link has the same
+    translation -/
+def AliasClosed (G : Graph) (Rd : List Ref) (s : St) : Prop :=
+  ∀ k t x, (k, t) ∈ s.trans → ¬ Exempt G Rd k → CPY.get G k true = .ok (.obj (.ref x.1 x.2)) →
+    ProperEnd G k → assoc x s.trans = some t
+
+theorem aliasClosed_init (G : Graph) (Rd : List Ref) (n0 : Nat) : AliasClosed G Rd (St.init n0) := by
+  intro k t x hm; simp [St.init] at hm
+
+theorem not_properEnd_of_malformed {G : Graph} {r : Ref}
+    (h : resolveLoop G true Gen.cpy_MaxExtractDepth [] r = .error .malformed) : ¬ ProperEnd G r := by
+  rintro ⟨n, v, hf, hn⟩
+  have := (resolve_spec G r v).mpr ⟨n, hn, hf⟩
+  simp only [resolve] at this
+  rw [h] at this; cases this
+
+theorem assoc_enter_other {chain : List Ref} {t x : Ref} {tr : List (Ref × Ref)} (h : x ∉ chain) :
+    assoc x (enter chain t tr) = assoc x tr := by
+  unfold enter
+  rw [assoc_append]
+  have : assoc x (chain.map fun k => (k, t)) = none := by
+    rw [assoc_none_iff]; exact fun hm => h (mem_enter_keys.mp hm)
+  rw [this]
+
+theorem get_ref_inj {G : Graph} {k x y : Ref} (h1 : CPY.get G k true = .ok (.obj (.ref x.1 x.2)))
+    (h2 : CPY.get G k true = .ok (.obj (.ref y.1 y.2))) : x = y := by
+  rw [h1] at h2
+  injection h2 with h2; injection h2 with h2; injection h2 with ha hb
+  exact Prod.ext ha hb
+
+/-- **aliasClosed_copyRef.**  Every call keeps `trans` closed under "next link of the chain". -/
+theorem aliasClosed_main (G : Graph) (Rd : List Ref) (f : Nat) :
+    ∀ s r t s', copyRef f G s r = .ok (t, s') → AliasClosed G Rd s → AliasClosed G Rd s' := by
+  refine (prim_main G (AliasClosed G Rd) ?_ ?_ ?_ f).2.2.2.2.2.2
+  · -- a link of the chain was known
+    intro s r t chain hq hnone hwk
+    have hw := walkFrom_out (G := G) hnone
+    rw [hwk] at hw
+    obtain ⟨_, w2, _, x0, hx0, _, hnext⟩ := hw
+    have hx0c : x0 ∉ chain := fun h => by have := w2 x0 h; rw [hx0] at this; cases this
+    intro k t' x hm hex hg hpe
+    rcases mem_enter hm with ⟨hk, ht⟩ | hm'
+    · subst ht
+      obtain ⟨y, hy, hyc⟩ := hnext k hk
+      have := get_ref_inj hg hy
+      subst this
+      rcases hyc with h | h
+      · exact assoc_enter_mem h
+      · subst h; rw [assoc_enter_other hx0c]; exact hx0
+    · have h1 := hq k t' x hm' hex hg hpe
+      have hxc : x ∉ chain := fun h => by have := w2 x h; rw [h1] at this; cases this
+      show assoc x (enter chain t s.trans) = some t'
+      rw [assoc_enter_other hxc]; exact h1
+  · -- the chain ended: all its links are entered
+    intro s r v chain hq hnone hwk
+    have hw := walkFrom_out (G := G) hnone
+    rw [hwk] at hw
+    obtain ⟨_, _, w2, _, hcase⟩ := hw
+    intro k t' x hm hex hg hpe
+    simp only at hm
+    rcases mem_enter hm with ⟨hk, ht⟩ | hm'
+    · subst ht
+      rcases hcase with ⟨hc, _, hmal⟩ | ⟨_, e, _, hge, hnr, _, hnext⟩
+      · rw [hc] at hk; simp only [List.mem_singleton] at hk; subst hk
+        exact absurd hpe (not_properEnd_of_malformed hmal)
+      · by_cases hke : k = e
+        · subst hke
+          rw [hg] at hge; cases hge
+          exact absurd trivial hnr
+        · obtain ⟨y, hy, hgy⟩ := hnext k hk hke
+          have := get_ref_inj hg hgy
+          subst this
+          exact assoc_enter_mem hy
+    · have h1 := hq k t' x hm' hex hg hpe
+      have hxc : x ∉ chain := fun h => by have := w2 x h; rw [h1] at this; cases this
+      show assoc x (enter chain (refOf s.next) s.trans) = some t'
+      rw [assoc_enter_other hxc]; exact h1
+  · intro s n v s' hq hp
+    have := put_ok hp
+    subst this
+    exact hq
+
+theorem follows_step {G : Graph} {a c : Ref} {n : Nat} {v : Val}
+    (hg : CPY.get G a true = .ok (.obj (.ref c.1 c.2))) (hf : Follows G a n v) :
+    ∃ m, n = m + 1 ∧ Follows G c m v := by
+  cases hf with
+  | last hg' hn => rw [hg] at hg'; cases hg'; exact absurd trivial hn
+  | @next _ n' g' k _ hg' hf' =>
+    rw [hg] at hg'
+    injection hg' with hg'; injection hg' with hg'; injection hg' with ha hb
+    have : c = (n', g') := Prod.ext ha hb
+    subst this
+    exact ⟨k, rfl, hf'⟩
+
+/-- in an alias-closed state the end of the chain has the translation of its first link -/
+theorem aliasClosed_end {G : Graph} {Rd : List Ref} {s : St} (hA : AliasClosed G Rd s) {a e : Ref}
+    (he : EndsAt G a e) : ∀ {ta : Ref}, assoc a s.trans = some ta → ProperEnd G a → ¬ Exempt G Rd a →
+      assoc e s.trans = some ta := by
+  induction he with
+  | here _ _ => intro ta h _ _; exact h
+  | @step a c e hg _ ih =>
+    intro ta h hp hx
+    have hc := hA a ta c (assoc_some_mem _ _ _ h) hx hg hp
+    apply ih hc
+    · obtain ⟨n, v, hf, hn⟩ := hp
+      obtain ⟨m, hm, hf'⟩ := follows_step hg hf
+      exact ⟨m, v, hf', by omega⟩
+    · rintro (h' | ⟨x, hx', hl⟩)
+      · exact hx (Or.inr ⟨c, h', .one hg⟩)
+      · exact hx (Or.inr ⟨x, hx', .more hg hl⟩)
+
+/-- **copy_respects_aliases.**  Two source references which stand for the same object - their
+chains of references (`N 0 obj M 0 R endobj`) end at the same object - are translated to the
+same target object: an object reached directly and through alias objects is copied once.
+(Chains within the depth `Resolve` admits; references the caller redirected are his business.) -/
+theorem copy_respects_aliases {G : Graph} {Rd : List Ref} {s : St} (hA : AliasClosed G Rd s)
+    {a b e ta tb : Ref} (ha : assoc a s.trans = some ta) (hb : assoc b s.trans = some tb)
+    (hea : EndsAt G a e) (heb : EndsAt G b e) (hpa : ProperEnd G a) (hpb : ProperEnd G b)
+    (hxa : ¬ Exempt G Rd a) (hxb : ¬ Exempt G Rd b) : ta = tb := by
+  have h1 := aliasClosed_end hA hea ha hpa hxa
+  have h2 := aliasClosed_end hA heb hb hpb hxb
+  rw [h1] at h2; cases h2; rfl
+
+
 /-! ### a concrete cyclic graph (non-vacuity of the hypotheses above) -/
 
 def kKids : Bytes := [75, 105, 100, 115]
@@ -395,9 +638,10 @@ def showSt (r : Except CErr (Ref × St)) : Option (Ref × Nat × List Ref × Lis
 
 
 /-- non-vacuity: the copy of `G0` from object 2 succeeds; five objects are allocated (2..6), the
-    dangling reference 9 0 R included, and each is written once -/
+    dangling reference 9 0 R included, and each is written once; the alias 3 and the object 4 it
+    stands for are both translated (to the same object) -/
 example : showSt (copyRef 30 G0 (St.init 2) (2, 0)) =
-    some ((2, 0), 7, [(6, 0), (5, 0), (9, 0), (3, 0), (2, 0)], [(4, 0), (6, 0), (5, 0), (3, 0), (2, 0)]) := by
+    some ((2, 0), 7, [(6, 0), (5, 0), (9, 0), (3, 0), (4, 0), (2, 0)], [(4, 0), (6, 0), (5, 0), (3, 0), (2, 0)]) := by
   decide +kernel
 
 /-- object 4 is reachable from 2 through the chain 3 → 4 and refers back to 2 (a cycle) -/
@@ -410,11 +654,33 @@ example : Reach G0 (2, 0) (2, 0) ∧ Reach G0 (2, 0) (3, 0) := by
 theorem reach_G0 : Reach G0 (2, 0) (5, 0) := by
   refine .step (.step .root ?_) ?_ (a := (3, 0)) <;> decide +kernel
 
+/-- `G0` has no over-deep chain: its only alias object is 3 → 4 -/
+theorem linkInv_G0 : LinkInv G0 := by
+  intro a n g h
+  by_cases h3 : a = (3, 0)
+  · subst h3
+    have : (n, g) = (4, 0) := by
+      simp [CPY.get, G0, assoc] at h
+      exact Prod.ext h.1.symm h.2.symm
+    rw [this]; rfl
+  · exfalso
+    by_cases h2 : a = (2, 0)
+    · subst h2; simp [CPY.get, G0, assoc] at h
+    · by_cases h4 : a = (4, 0)
+      · subst h4; simp [CPY.get, G0, assoc] at h
+      · by_cases h5 : a = (5, 0)
+        · subst h5; simp [CPY.get, G0, assoc] at h
+        · by_cases h6 : a = (6, 0)
+          · subst h6; simp [CPY.get, G0, assoc] at h
+          · have hn : assoc a G0 = none := by
+              simp [G0, assoc, Ne.symm h2, Ne.symm h3, Ne.symm h4, Ne.symm h5, Ne.symm h6]
+            simp [CPY.get, hn] at h
+
 /-- `copy_iso` applies to `G0` (hypotheses are satisfiable, conclusion is about a stream reached
     through a chain inside a cycle) -/
 example : ∀ t s', copyRef 30 G0 (St.init 2) (2, 0) = .ok (t, s') →
     ∃ t' v, assoc (5, 0) s'.trans = some t' ∧ assoc t' s'.puts = some v ∧ Image s'.trans G0 (5, 0) v :=
-  fun _ _ h => copy_iso (init_consistent G0 2) h (5, 0) reach_G0
+  fun _ _ h => copy_iso linkInv_G0 (init_consistent G0 2) h (5, 0) reach_G0
 
 /-- `dangling_is_null` applies: 9 0 R is not defined in `G0` -/
 example : resolveOrNull G0 (9, 0) = .ok (.obj .null) := resolveOrNull_missing (by decide +kernel)
@@ -445,6 +711,20 @@ example : Benign G0 (allRefs G0 [.copyRef (2, 0)]) := by
        rcases hk with e | e <;> subst e
        · cases hv; exact ⟨_, rfl⟩
        · cases hv)
+
+
+/-- `copy_respects_aliases` applies to `G0`: the alias 3 and the object 4 share their copy -/
+example : ∀ t s', copyRef 30 G0 (St.init 2) (2, 0) = .ok (t, s') →
+    ∀ ta tb, assoc (3, 0) s'.trans = some ta → assoc (4, 0) s'.trans = some tb → ta = tb := by
+  intro t s' h ta tb ha hb
+  have hA := aliasClosed_main G0 [] 30 _ _ _ _ h (aliasClosed_init G0 [] 2)
+  have h4 : CPY.get G0 (4, 0) true =
+      .ok (.obj (.dict [(kParent, .ref 2 0), (kD, .ref 9 0), (kSelf, .ref 5 0)])) := rfl
+  have hn4 : ¬ IsRef (.obj (.dict [(kParent, .ref 2 0), (kD, .ref 9 0), (kSelf, .ref 5 0)])) := by simp [IsRef]
+  have h3 : CPY.get G0 (3, 0) true = .ok (.obj (.ref 4 0)) := rfl
+  exact copy_respects_aliases hA ha hb (.step (c := (4, 0)) h3 (.here h4 hn4)) (.here h4 hn4)
+    ⟨1, _, .next (n := 4) (g := 0) h3 (.last h4 hn4), by decide⟩ ⟨0, _, .last h4 hn4, by decide⟩
+    (not_exempt_nil G0 _) (not_exempt_nil G0 _)
 
 
 end PdfVerif.C11cpyc
